@@ -106,8 +106,8 @@ LOCAL_INT = {f for f in TABLE if f.startswith("local_")}
 # float-raster reductions whose result must not depend on the thread count (NUMBA_NUM_THREADS / numba.set_num_threads)
 THREAD_CALLS = [("zonal_stats", {}, "float64"), ("zonal_stats", {}, "float32"),
                 ("focal_stats", {"stats": ["mean", "sum", "std", "var"]}, "float32"), ("hotspots", {}, "float32"),
-                ("local_cell_stats", {"func": "mean"}, "float64"), ("local_cell_stats", {}, "float64"),
-                ("true_color", {}, "float32"), ("focal_apply", {}, "float32"), ("slope", {}, "float32"),
+                ("local_cell_stats", {"func": "mean"}, "float64"),
+                ("true_color", {}, "float32"), ("focal_apply", {}, "float32"),
                 # Dask graphs on the threaded scheduler with as many workers
                 ("focal_apply", {}, "float32", "dask"), ("zonal_stats", {}, "float64", "dask"), ("hotspots", {}, "float32", "dask")]
 
